@@ -1,6 +1,6 @@
 (* C05 — property theorems only: each closed by [exact lemma], followed by Print Assumptions. *)
 From Coq Require Import List ZArith Bool.
-From Verif Require Import MiniGo.Syntax MiniGo.Sem MiniGo.Fast C05.Proof C05.Sim C05.Switch C05.Correct C05.Final.
+From Verif Require Import MiniGo.Syntax MiniGo.Sem MiniGo.Fast C05.Proof C05.Sim C05.Switch C05.Correct C05.Final C05.Targets.
 Import ListNotations.
 
 (* Forward simulation (all programs, all fuel).  _partial: the only excluded construct is the goto STATEMENT
@@ -52,6 +52,20 @@ Theorem C05_scoping_per_loop : forall cx base lbls n init cond post nb body c,
     base < cond_ip /\ base < cont_ip /\ brk_ip = base + size (SFor n init cond post nb body) - 1.
 Proof. exact scoping_per_loop. Qed.
 Print Assumptions C05_scoping_per_loop.
+
+(* Jump targets are patched correctly, for ALL statements (goto included; no [nogoto] premise):
+   (1) every possible successor of every instruction of a compiled function ([Targets.targets]: jump / conditional jump /
+       case-header miss / fallthrough / jump-table entries / ip+1) is <= len(code), i.e. a valid index of env.Code
+       (code[len] is the spinInterrupt slot appended by Code.Exec);
+   (2)-(4) break / continue / goto resolve to the Break / Continue / label address recorded by the innermost Comp the
+       label designates, with upn = sum of the UpCost of the Comps crossed (the number of envs to exit: each Comp with
+       UpCost 1 pushed exactly one env; the dynamic reading is the [skipn upn] of the C05_compile_correct theorems);
+   (5)-(6) the recorded targets are: switch -> first slot after the construct, no Continue; for -> Break = the slot after
+       the back jump (the header's PopEnv, or the first slot after the construct), Continue = post statement, or the
+       condition when there is no post statement. *)
+Theorem C05_jump_targets_patched : jump_targets_patched_stmt.
+Proof. exact jump_targets_patched. Qed.
+Print Assumptions C05_jump_targets_patched.
 
 (* non-vacuity: a labelled loop with a switch, fallthrough, default in the middle, labelled continue from inside
    the switch, a block with a local; hypotheses hold and both sides compute the same trace *)
